@@ -328,7 +328,7 @@ func init() {
 			"non-trivial = a delivery/transport/capacity fault fired; distinct = hash of (X identity, transport ops, acceptance pattern, delivered read sizes, outcomes).",
 		Assumptions: []string{"structural equivalence = reflective deep comparison incl. unexported fields with nil==empty", "inputs failing the precondition (neither path reproduces X) impose nothing", "leaf-box decoder pairs are only exercised for box types present in corpus/packager/transport output"},
 		Real:        realLib, Stub: append([]string{"unit transport (box-level drop/dup/swap/move/splice with size repair)"}, stubIO...), RealNoFault: realNoFault,
-		Runs:       map[string]int{"quick": 50000, "thorough": 3000000},
+		Runs:       map[string]int{"quick": 200000, "thorough": 8000000},
 		Setup:      c03Setup,
 		Run:        c03Run,
 		WantFaults: []string{"read-short", "read-zero", "read-data+eof", "read-eio", "disk-truncated", "unit-spliced", "unit-duplicated", "unit-reordered", "unit-moved", "unit-dropped", "slice-short", "write-full"},
